@@ -166,8 +166,8 @@ func (fr *frame) site() string {
 }
 
 func shortFile(f string) string {
-	if i := strings.Index(f, "/repo/"); i >= 0 {
-		return f[i+6:]
+	if strings.HasPrefix(f, repoDir+"/") {
+		return f[len(repoDir)+1:]
 	}
 	if i := strings.LastIndex(f, "/src/"); i >= 0 {
 		return f[i+5:]
@@ -592,6 +592,9 @@ func (in *Interp) visit(fr *frame, instr ssa.Instruction) continuation {
 		}
 		*addr = zero(deref(instr.Type()))
 	case *ssa.MakeSlice:
+		tElt0 := instr.Type().Underlying().(*types.Slice).Elem()
+		in.boundMake(fr, fr.get(instr.Cap), tElt0)
+		in.boundMake(fr, fr.get(instr.Len), tElt0)
 		ln := in.concInt(fr, fr.get(instr.Len), "make len")
 		cp := in.concInt(fr, fr.get(instr.Cap), "make cap")
 		if ln < 0 || ln > cp {
@@ -752,6 +755,30 @@ func (in *Interp) index(fr *frame, iv Value, n int) int {
 		in.throw(fr, fmt.Sprintf("index out of range [%d] with length %d", k, n))
 	}
 	return int(k)
+}
+
+// boundMake splits a symbolic make() size into "small" (continues, to be
+// concretised), "beyond what the runtime can allocate" (the runtime panics)
+// and the range in between, which is outside what a run can claim.
+func (in *Interp) boundMake(fr *frame, v Value, elem types.Type) {
+	x, ok := v.(SInt)
+	if !ok || x.T == nil {
+		return
+	}
+	tb := in.tb
+	t := tb.Resize(x.T, 64, true)
+	if in.ex.Branch(tb.Bin(OpBvUle, t, tb.Const(SoBV64, 1<<16))) {
+		return
+	}
+	es := uint64(in.P.sizes.Sizeof(elem))
+	if es == 0 {
+		es = 1
+	}
+	maxElems := (uint64(1) << 47) / es
+	if in.ex.Branch(tb.Bin(OpBvUlt, tb.Const(SoBV64, maxElems), t)) {
+		in.throw(fr, "makeslice: len out of range")
+	}
+	in.abort("bound", "make() of a symbolic size between 65536 and the allocation limit", fr.site())
 }
 
 // concInt forces an integer to a concrete value (forking over its feasible
